@@ -307,11 +307,16 @@ def check_document(text, acc, origin):
     file_route(text, base, acc, origin)
 
 
-def file_route(text, base, acc, origin):
-    """File instead of string: TokenScanner(path) and source_event(path) against the same text given as a string."""
+def file_route(text, base, acc, origin, nested=0):
+    """File instead of string: TokenScanner(path) and source_event(path) against the same text given as a string.
+    nested: number of 40-character directories between the scratch directory and the file (long paths)."""
     tmp = tempfile.mkdtemp(prefix='c16-')
     try:
-        path = os.path.join(tmp, 'doc.feature')
+        d = tmp
+        for i in range(nested):
+            d = os.path.join(d, ('dir%02d-' % i) + 'x' * 34)
+        os.makedirs(d, exist_ok=True)
+        path = os.path.join(d, 'doc.feature')
         with open(path, 'w', encoding='utf8', newline='') as f:
             f.write(text)
         acc.n += 1
@@ -406,6 +411,29 @@ def job_docs(kind, arg):
                     assert len((head + 'a' * pad).encode('utf8')) == boundary - o
                     check_document(text, acc, 'bigfiles')
                     last = text[:60] + '...'
+    elif kind == 'longlines':
+        # unexpected and expected lines of 60 ... 1025 characters (message quoting, buffers): every layout transformation
+        n, = arg
+        y = 'y' * n
+        for text in ('Feature: f\n  Scenario: s\n    Given x\n  @t\n    Given ' + y + '\n',
+                     'Feature: f\n  Scenario: s\n    Given x\n  Background: ' + y + '\n    Given z\n',
+                     'Feature: f\n  Scenario: s\n    Given ' + y + '\n      | ' + y + ' | b |\n      | c |\n',
+                     '  ' + y + '\nFeature: f\n',
+                     'Feature: f\n  @' + y + ' @u v\n  Scenario: ' + y + '\n'):
+            check_document(text, acc, 'longlines')
+            last = text[:80]
+    elif kind == 'longpaths':
+        nested, = arg
+        for b in G.base_documents()[:6] + []:
+            text = M.render(b)[0]
+            base = run_text(text, acc)
+            acc.n += 1
+            if base[0] != 'exc':
+                file_route(text, base, acc, 'longpaths', nested=nested)
+            last = text
+        for text in ('garbage\n', 'Feature: f\n  Scenario: s\n    Given x\n      | a |\n      | b | c |\n'):
+            base = run_text(text, acc)
+            file_route(text, base, acc, 'longpaths', nested=nested)
     elif kind == 'edits':
         mc, bi = arg
         for text in DS.single_edits(DS.edit_bases(mc)[bi]):
@@ -465,6 +493,8 @@ def run(ctx):
               [job_docs.job('docstrings', (d, delim)) for d in (0, 1, 2, 4, 6) for delim in ('"""', '```')])
     ctx.level('files with a multi-byte character astride a power-of-two byte offset',
               [job_docs.job('bigfiles', (b,)) for b in ctx.pick((1024, 4096, 8192, 16384, 65536), (512, 1024, 2048, 4096, 8192, 16384, 32768, 65536, 131072, 262144, 1048576))])
+    ctx.level('lines of 60..1025 characters, expected and unexpected', [job_docs.job('longlines', (n,)) for n in (60, 94, 99, 100, 101, 127, 128, 129, 255, 256, 257, 1023, 1025)])
+    ctx.level('files under long paths (6..24 nested directories, 300..1100 characters)', [job_docs.job('longpaths', (n,)) for n in (6, 7, 12, 24)])
     mc = ctx.pick(100, 250)
     ctx.level('single edits of corpus and base documents <= %d characters' % mc, [job_docs.job('edits', (mc, bi)) for bi in range(len(DS.edit_bases(mc)))])
     ctx.level('one construct repeated 1..4, 10, 11 times', [job_docs.job('repetition', (i,)) for i in range(len(G.REPEATABLE))])
